@@ -11,7 +11,6 @@ package main
 import (
 	"encoding/binary"
 	"fmt"
-	"sort"
 
 	"github.com/sarchlab/akita/v4/mem/mem"
 	"github.com/sarchlab/akita/v4/mem/vm"
@@ -283,15 +282,28 @@ func (l *ctlLink) Tick() bool {
 	return progress
 }
 
-// busy reports whether the link still holds back a message for a reason that
-// ends by itself (window, gap). With the engine idle this must never be true.
+// busy reports whether a plugged port still has a message in its outgoing
+// buffer. Windows and gaps end by themselves (the link schedules its own
+// wake-up), so with the engine idle and no hold this means that a receiver
+// does not take messages any more.
 func (l *ctlLink) busy() bool {
+	up, down := l.pending()
+	return up+down > 0
+}
+
+// pending counts the ports with an undelivered head message per direction.
+func (l *ctlLink) pending() (up, down int) {
 	for _, p := range l.ports {
-		if p.PeekOutgoing() != nil {
-			return true
+		if p.PeekOutgoing() == nil {
+			continue
+		}
+		if _, isCU := l.cuIdx[p.AsRemote()]; isCU {
+			up++
+		} else {
+			down++
 		}
 	}
-	return false
+	return up, down
 }
 
 // ---------------------------------------------------------------------------
@@ -678,14 +690,5 @@ func (e *renv) mapsSentFor(l *launchRec) []int {
 			}
 		}
 	}
-	return out
-}
-
-func sortedKeys(m map[string]bool) []string {
-	out := make([]string, 0, len(m))
-	for k := range m {
-		out = append(out, k)
-	}
-	sort.Strings(out)
 	return out
 }
